@@ -22,6 +22,7 @@ def dispatch (line : String) : String :=
   | "C18" :: args => VtModel.Vpl.handle args
   | "C18r" :: args => VtModel.Vpl.handleRender args
   | "C06" :: args => VtModel.Converter.handle args
+  | "C11g" :: args => VtModel.Geom.handle args
   | "C11csv" :: args => VtModel.Csv.handle args
   | "C11p" :: args => VtModel.Prim.handlePrim args
   | "C11d" :: args => VtModel.Mvt.handleDecode args
